@@ -26,7 +26,7 @@ func init() {
 		Trusted: []string{"sink model and HTML lexer-state dataflow (DESIGN 2.5)", "SortChildren sorts by the comparator (C13)"},
 		Assumes: []string{"built-in footnote extension only"},
 		Rules: []func(*World, *Report){ruleFootnoteTemplates, ruleFootnoteNumbering, ruleNumberedMeansReferenced, ruleOneDefinitionPerReference, ruleSortInsertionPoint,
-			ruleIterationSafety("C16-I", func(w *World, fn *ssa.Function) bool { return inSourceFile(w, fn, "extension/footnote.go") }, 2)},
+			ruleIterationSafety("C16-I", func(w *World, fn *ssa.Function) bool { return inSourceFile(w, fn, "extension/footnote.go") }, 1)},
 	})
 }
 
@@ -273,7 +273,7 @@ func ruleFootnoteTemplates(w *World, r *Report) {
 	for _, t := range [][]string{tl["id"], tl["href"], tb["href"], ti["id"]} {
 		n += len(t)
 	}
-	r.Expect("template pieces extracted", n, 12)
+	r.Expect("template pieces extracted", n, 9)
 }
 
 // ---- C16-N / C16-B -----------------------------------------------------------------------------------
